@@ -30,7 +30,7 @@ func (e *Engine) Name() string         { return "multistate" }
 func (e *Engine) Properties() []string { return []string{"C13", "C11"} }
 func (e *Engine) Level() string        { return "exploration" }
 func (e *Engine) Rule() string {
-	return "one run = 2-6 real goroutines each running Lua on its own LState(s): compute tasks (generated SimLua programs instantiated from prototypes compiled once and shared, plus private copies), lifecycle tasks (NewState/compile/run/Close loops), producers, consumers (receive and select fan-in), a closer, request/response pairs, payload-refusal probes; deadlock-free channel topologies with capacities 0-3. Every task parks at every yield point (instruction budget 1-2000 from the tape, before and after every channel operation); the scheduler keeps a model of every channel, computes the enabled tasks and draws the next release from the tape; rendezvous partners are released as a pair. Oracles: no race-detector report (in the -race half of the workers), every compute task's trace equals its solo trace, shared prototypes are bit-identical afterwards, every received value is exactly the one the channel model delivers (each value once, per-sender order), closed/drained channels report closure, select completes only ready cases, refused payloads raise, no deadlock. distinct_nontrivial = distinct schedules (hash of the sequence of (task, budget, matched partner)) with at least two tasks"
+	return "one run = 2-6 real goroutines each running Lua on its own LState(s): compute tasks (generated SimLua programs instantiated from prototypes compiled once and shared, plus private copies), lifecycle tasks (NewState/compile/run/Close loops), producers, consumers (receive, polling select with a default case, select fan-in), a closer, request/response pairs, payload-refusal probes; deadlock-free channel topologies with capacities 0-3 and 1-4 values per producer (one run in eight: capacities 7-64 and 20-69 values per producer); one task in three has an (undone) context attached; states are closed while other tasks run. Every task parks at every yield point (instruction budget 1-2000 from the tape, before and after every channel operation); the scheduler keeps a model of every channel, computes the enabled tasks and draws the next release from the tape; rendezvous partners are released as a pair. Oracles: no race-detector report (in the -race half of the workers), every compute task's trace equals its solo trace, shared prototypes are bit-identical afterwards, every received value is exactly the one the channel model delivers (each value once, per-sender order), closed/drained channels report closure, select completes only ready cases, refused payloads raise, no deadlock. distinct_nontrivial = distinct schedules (hash of the sequence of (task, budget, matched partner)) with at least two tasks"
 }
 func (e *Engine) RealComponents() []string {
 	return []string{"LState/VM/compiler/standard libraries in several goroutines", "shared *FunctionProto", "package-level state (segment pool, jump table, ...)", "channellib.go over real Go channels and reflect.Select", "Go runtime channels"}
@@ -504,7 +504,14 @@ func (e *Engine) Run(t *core.Tape, cfg *core.Config, st *core.Stats) *core.Viola
 	case 0, 1: // producers -> C (-> consumers), done tokens -> closer
 		np := 1 + t.Choose(3)
 		nc := 1 + t.Choose(2)
-		C := addChan(t.Choose(4))
+		// one run in eight: many values through bigger buffers (counts and capacities beyond the small numbers)
+		big := t.Choose(8) == 0
+		ccap := t.Choose(4)
+		if big {
+			ccap = []int{7, 8, 16, 33, 64}[t.Choose(5)]
+			st.Probe("many_values_big_buffer")
+		}
+		C := addChan(ccap)
 		D := addChan(np)
 		var C2 *mchan
 		useSelect := topo == 1
@@ -519,6 +526,9 @@ func (e *Engine) Run(t *core.Tape, cfg *core.Config, st *core.Stats) *core.Viola
 				target = C2
 			}
 			k := 1 + t.Choose(4)
+			if big {
+				k = 20 + t.Choose(50)
+			}
 			viaSelect := t.Choose(3) == 0
 			if viaSelect {
 				st.Probe("producer_sends_through_select")
